@@ -70,7 +70,7 @@ def servedJ (c : Core.Cfg) (s : Core.State) (ms : Array Crossbar.MasterIn) (j : 
 def ownNext (c : Core.Cfg) (s : Core.State) (ms : Array Crossbar.MasterIn) (own : Own) : Own := fun j =>
   (if servedJ c s ms j then (own j).tail else own j) ++ (if takenJ c s ms j then [s.xb.grants[j]!] else [])
 
-theorem getElem!_map' {α β : Type} [Inhabited α] [Inhabited β] (arr : Array α) (f : α → β) (j : Nat) (h : j < arr.size) :
+theorem getElemBang_map {α β : Type} [Inhabited α] [Inhabited β] (arr : Array α) (f : α → β) (j : Nat) (h : j < arr.size) :
     (arr.map f)[j]! = f arr[j]! := by
   have h2 : j < (arr.map f).size := by simpa using h
   rw [getElem!_pos (arr.map f) j h2, getElem!_pos arr j h]
@@ -85,7 +85,7 @@ theorem bankFb_lock (c : Core.Cfg) (hwf : WFc c) (s : Core.State) (j : Nat) (hj 
   have hsz : j < (Controller.step c.ctl s.ctl (Array.replicate c.ctl.nbm ({ valid := false, we := false, addr := 0 } : BankIn))).2.size := by
     simp [Controller.step, hj]
   simp only [Core.bankFb]
-  rw [getElem!_map' _ _ _ hsz, step_outs_all _ _ _ _ hj]
+  rw [getElemBang_map _ _ _ hsz, step_outs_all _ _ _ _ hj]
   simp only []
   rw [lock_state _ (by have := hwf.depth; omega), lock_iff_queue]
 
@@ -94,7 +94,7 @@ theorem insOf_valid (c : Core.Cfg) (hwf : WFc c) (s : Core.State) (ms : Array Cr
   have hsz : j < (Crossbar.comb c.xb s.xb ms (Core.bankFb c s)).bankReqs.size := by
     simp [Crossbar.comb, hwf.banks, hj]
   simp only [insOf]
-  rw [getElem!_map' _ _ _ hsz]
+  rw [getElemBang_map _ _ _ hsz]
 
 theorem oinv_step (c : Core.Cfg) (hwf : WFc c) (s : Core.State) (ms : Array Crossbar.MasterIn) (own : Own) (h : OInv c s own) :
     OInv c (Core.step c s ms).1 (ownNext c s ms own) := by
@@ -207,7 +207,7 @@ theorem strobe_to_issuer (c : Core.Cfg) (hwf : WFc c) (hab : 11 ≤ c.ctl.bm.abi
     constructor
     · rintro ⟨nb, hnb, hp⟩
       have hnb' : nb < c.ctl.nbm := by rw [← hwf.banks]; simpa using hnb
-      rw [getElem!_map' _ _ _ (by rw [outs_size]; exact hnb')] at hp
+      rw [getElemBang_map _ _ _ (by rw [outs_size]; exact hnb')] at hp
       simp only [Bool.and_eq_true, beq_iff_eq] at hp
       by_cases hne : nb = j
       · subst hne; simp [o, hp.1, hp.2]
@@ -215,14 +215,14 @@ theorem strobe_to_issuer (c : Core.Cfg) (hwf : WFc c) (hab : 11 ≤ c.ctl.bm.abi
     · intro hp
       simp only [Bool.and_eq_true, beq_iff_eq] at hp
       refine ⟨j, by rw [List.mem_range, hwf.banks]; exact hj, ?_⟩
-      rw [getElem!_map' _ _ _ (by rw [outs_size]; exact hj)]
+      rw [getElemBang_map _ _ _ (by rw [outs_size]; exact hj)]
       simp [hp.2]; exact hp.1
   · simp only [pushR]
     rw [Bool.eq_iff_iff, List.any_eq_true]
     constructor
     · rintro ⟨nb, hnb, hp⟩
       have hnb' : nb < c.ctl.nbm := by rw [← hwf.banks]; simpa using hnb
-      rw [getElem!_map' _ _ _ (by rw [outs_size]; exact hnb')] at hp
+      rw [getElemBang_map _ _ _ (by rw [outs_size]; exact hnb')] at hp
       simp only [Bool.and_eq_true, beq_iff_eq] at hp
       by_cases hne : nb = j
       · subst hne; simp [o, hp.1, hp.2]
@@ -230,7 +230,7 @@ theorem strobe_to_issuer (c : Core.Cfg) (hwf : WFc c) (hab : 11 ≤ c.ctl.bm.abi
     · intro hp
       simp only [Bool.and_eq_true, beq_iff_eq] at hp
       refine ⟨j, by rw [List.mem_range, hwf.banks]; exact hj, ?_⟩
-      rw [getElem!_map' _ _ _ (by rw [outs_size]; exact hj)]
+      rw [getElemBang_map _ _ _ (by rw [outs_size]; exact hj)]
       simp [hp.2]; exact hp.1
 
 theorem oinv_init (c : Core.Cfg) (hwf : WFc c) : OInv c (Core.init c) (fun _ => []) := by
@@ -286,7 +286,7 @@ theorem taken_selected (c : Core.Cfg) (hwf : WFc c) (s : Core.State) (ms : Array
   constructor
   · have hb := hsel.1.1
     by_cases hm : s.xb.grants[j]! < ms.size
-    · rw [getElem!_map' _ _ _ hm] at hb; exact hb
+    · rw [getElemBang_map _ _ _ hm] at hb; exact hb
     · have hm2 : ¬ s.xb.grants[j]! < (ms.map fun m => AddrMap.bankOf c.xb.geom m.cmdAddr).size := by simpa using hm
       rw [getElem!_neg (ms.map fun m => AddrMap.bankOf c.xb.geom m.cmdAddr) _ hm2] at hb
       rw [getElem!_neg ms _ hm]
